@@ -335,6 +335,9 @@ Proof.
   - split; [assumption|discriminate].
 Qed.
 
+Lemma cache_sane_initially d : cache_sane d rs0.
+Proof. exact I. Qed.
+
 Lemma cache_sane_log d : log_stable (cache_sane d).
 Proof. intros s a b H. exact H. Qed.
 
@@ -485,10 +488,10 @@ Proof.
            end; inversion H.
 Qed.
 
-Lemma leaf_fold t u : (forall r, In r t -> n_parent r <> u) -> (forall r, In r t -> n_uid r = u -> True) ->
+Lemma leaf_fold t u : (forall r, In r t -> n_parent r <> u) ->
   fold_left (fun a r => if existsb (Z.eqb (n_parent r)) a && negb (existsb (Z.eqb (n_uid r)) a) then a ++ [n_uid r] else a) t [u] = [u].
 Proof.
-  intros H _. induction t as [|x r IH]; cbn [fold_left]; [reflexivity|].
+  intros H. induction t as [|x r IH]; cbn [fold_left]; [reflexivity|].
   cbn [existsb]. destruct (Z.eqb_spec (n_parent x) u) as [E|E]; [exfalso; apply (H x); [now left|assumption]|].
   cbn [orb andb]. apply IH. intros y Hy. apply H. now right.
 Qed.
@@ -500,7 +503,7 @@ Proof.
   { intros r Hr E. assert (In r (children t u)) by (unfold children; apply filter_In; split; [assumption|now apply Z.eqb_eq]).
     rewrite Hc in H. contradiction. }
   generalize (length t) as fuel. induction fuel as [|fuel IH]; cbn [subtree_uids]; [reflexivity|].
-  rewrite leaf_fold; [exact IH|exact Hp|trivial].
+  rewrite leaf_fold; [exact IH|exact Hp].
 Qed.
 
 (* deleting a link node (a leaf of its own table: nothing can be created below a link) removes exactly that record:
